@@ -5,6 +5,8 @@ under every from()), replays every case on the model and on the history spec, an
   * observed = model (correspondence).
 -/
 import Kap.Spec.C02Loop
+import Kap.Spec.C02Udp
+import Kap.Model.C02Udp
 import Kap.Model.C02Bounded
 import Kap.Gen.C02Cap
 open Kap Kap.C02
@@ -401,7 +403,17 @@ def noteLoops (st : St) (d : TaskDef) : St := Id.run do
     st := addBr st "task-declares-external-and-loop-target-pairs"
   return st
 
+/-- UDP ingestion: `udp <db> <rp> <flow|held> <datagram>&<datagram>…` (a datagram = lines as in `hwrite`) is followed, for the replay, by
+one synthetic `uwrite <db> <rp> <datagram>` per datagram: the history the spec is evaluated on has ONE write per well-formed
+datagram, in arrival order (`Udp.udpHistory`), whatever the implementation did with its buffers. -/
+def expandUdp (lines : Array String) : Array String :=
+  (lines.toList.flatMap (fun l =>
+    match (splitObs (tokens l)).1 with
+    | ["udp", db, rp, _, pk] => l :: (pk.splitOn "&").map (fun p => s!"uwrite {db} {rp} {p} => ok")
+    | _ => [l])).toArray
+
 def judge (_id : String) (lines : Array String) : Verdict := Id.run do
+  let lines := expandUdp lines
   let some cap := edgeCap? | return .badop "the edge capacity was not recognised in the source (Kap/Gen/C02Cap.lean)"
   let mut st : St := {}
   -- what every sink recorded (needed to linearise concurrent writers)
@@ -509,6 +521,60 @@ def judge (_id : String) (lines : Array String) : Verdict := Id.run do
         if obs != ["err:closed"] && st.hung.isNone then
           st := { st with hung := some s!"write after drain: model err:closed observed {" ".intercalate obs}" }
         if obs != ["ok"] then continue
+    | ["udp", db, rp, mode, pk] =>
+      -- a real udp.Service (PointsWriter = the TaskMaster behind a gate) was sent these datagrams over loopback
+      let some _ := unesc db | return .badop l
+      let some rp' := unesc rp | return .badop l
+      let some dgs := (pk.splitOn "&").mapM parseLines | return .badop l
+      if mode != "held" && mode != "flow" then return .badop l
+      let steps := if mode == "held" then Udp.heldSchedule dgs else Udp.flowSchedule dgs
+      let m := Udp.run .copy steps
+      if !m.quiet then return .badop s!"udp: the model's schedule does not end quiet: {l}"
+      let doc := Udp.docCalls dgs
+      let docBad := (dgs.filter (fun dg => (Udp.docPacket dg).isNone)).length
+      st := addBr st (if mode == "held" then "udp-held" else "udp-flow")
+      st := addBr st (if dgs.length ≥ 2 then "udp-several-datagrams" else "udp-single-datagram")
+      if mode == "held" then
+        -- a later datagram is read (into the receive buffer) while the WritePoints call of an earlier, well-formed one is pending
+        let rec laterWhilePending : List (List Line) → Bool
+          | [] => false
+          | dg :: rest => ((Udp.docPacket dg).isSome && !rest.isEmpty) || laterWhilePending rest
+        if laterWhilePending dgs then st := addBr st "udp-held-later-datagram-read-while-write-pending"
+        let twoB : Bool := match dgs with
+          | a :: b :: _ => (Udp.docPacket a).any (!·.isEmpty) && (Udp.docPacket b).any (!·.isEmpty)
+          | _ => false
+        if twoB then
+          st := addBr st "udp-held-two-packets-with-points-back-to-back"
+      if docBad > 0 then st := addBr st "udp-datagram-with-failing-line-dropped-whole"
+      if dgs.any (fun dg => dg.any (fun x => match x with | .point _ ts => Udp.lineFails (.point default ts) | _ => false)) then
+        st := addBr st "udp-time-stamp-out-of-range-fails"
+      if dgs.any (fun dg => (Udp.docPacket dg).isSome && dg.any (fun x => match x with | .skip => true | _ => false)) then
+        st := addBr st "udp-comment-or-blank-line-skipped"
+      if doc.any (·.isEmpty) then st := addBr st "udp-datagram-without-points"
+      if rp' == "" then st := addBr st (if st.defaultRP == "" then "udp-no-rp-no-default" else "udp-no-rp-default-rp")
+      if st.drained then st := addBr st "udp-after-drain-refused"
+      if m.calls != doc then return .mismatch s!"udp: the model hands on {m.calls.map (·.map (·.id))}, documented {doc.map (·.map (·.id))}"
+      let wantCalls := renderList (m.calls.map (fun c => toString c.length ++ (if st.drained then "e" else "")))
+      match obs with
+      | [status, pf, calls] =>
+        if status != "ok" then
+          return .mismatch s!"udp: the harness could not complete the operation ({status} {pf} {calls}): datagrams not read or not processed in time"
+        -- what a datagram with a failing line writes is not the property's business: the history follows what the implementation
+        -- REPORTED; when it does not drop exactly as many datagrams as documented, which packets it wrote cannot be told
+        if pf != s!"pf={docBad}" then
+          return .mismatch s!"udp: {docBad} datagram(s) have a failing line, the service reports {pf}"
+        if pf != s!"pf={m.parseFail}" || calls != s!"calls={wantCalls}" then
+          if st.hung.isNone then st := { st with hung := some s!"udp: model pf={m.parseFail} calls={wantCalls} observed {pf} {calls}" }
+      | _ => return .badop l
+      continue
+    | ["uwrite", db, rp, pk] =>
+      let some db' := unesc db | return .badop l
+      let some rp' := unesc rp | return .badop l
+      let some dg := parseLines pk | return .badop l
+      if st.drained then continue     -- WritePoints answers ErrTaskMasterClosed: nothing is written
+      match Udp.docPacket dg with
+      | none => continue              -- dropped whole
+      | some pts => if pts.isEmpty then continue else opOver := some (.write db' rp' pts)
     | ["bloop", id, loop, bname, pts] =>
       let some id' := unesc id | return .badop l
       let some L := parseLoop loop | return .badop l
